@@ -216,4 +216,53 @@ void hf_open_easy(void)
     VREACH("hf_open_easy");
 }
 
+/* ---- C13: message and ciphertext inside ONE object at arbitrary relative offsets (exact aliasing included) ---- */
+#ifndef VOV
+# define VOV 80
+#endif
+#ifndef VDELTA
+# define VDELTA 0
+#endif
+void hb_overlap_seal(void)
+{
+    VIN_GET(); setup_();
+    size_t om = VOV, oc = VOV + (VDELTA);      /* constant offsets of m and c in the shared buffer: c - m = VDELTA */
+    VASSUME(vin.mlen <= VLMAX);
+    static unsigned char big[2 * VOV + VBUFSZ + 8], mac[16]; unsigned char *m = big + om, *c = big + oc, orig_g = 0; size_t j; int r;
+    unsigned long long mlen0 = vin.mlen > 32 ? 32 : vin.mlen, g = vin.mold; v_ref_first_len = (size_t) mlen0;
+    for (j = 0; j < mlen0; j++) m[j] = vin.m0[j];
+    if (vin.mlen > 32 && g < vin.mlen - 32) { orig_g = m[32 + g]; v_gidx = g; v_gidx_mm = 32 + g; }
+    VCALL(r = FN(detached)(c, mac, m, vin.mlen, vin.n, vin.k));
+    if (VMISUSED()) return;
+    /* the stream stubs assert their own precondition (output == input pointer or no overlap) at every call */
+    VASSERT("block 0 still holds 0^32 || first message bytes of the ORIGINAL message, whatever the overlap", V_EV(1).op == V_OP_XOR && (V_EV(1).flags & V_F_BLK0));
+    if (vin.mlen > 32) {
+        unsigned k2 = 4;      /* H, XOR(block0), POLY_INIT, [memzero silent], XOR_IC */
+        VASSERT("the rest is encrypted from the original message bytes into c + 32 (same result as with disjoint buffers)",
+                V_EV(3).op == V_OP_XOR && V_EV(3).out == c + 32 && V_EV(3).len == vin.mlen - 32 && V_EV(3).ic == 1 && (!(g < vin.mlen - 32) || (V_EV(3).has_gin && V_EV(3).gin == orig_g)));
+        (void) k2;
+    }
+    if (vin.gk < mlen0) VASSERT("first ciphertext bytes come from the encrypted block 0", c[vin.gk % 32 < mlen0 ? vin.gk % 32 : 0] == vin.xb[32 + (vin.gk % 32 < mlen0 ? vin.gk % 32 : 0)]);
+    VREACH("hb_overlap_seal");
+}
+
+void hb_overlap_open(void)
+{
+    VIN_GET(); setup_();
+    size_t oc = VOV, om = VOV + (VDELTA);      /* m - c = VDELTA */
+    VASSUME(vin.mlen <= VLMAX && vin.verify_ret == 0);
+    static unsigned char big[2 * VOV + VBUFSZ + 8]; unsigned char *c = big + oc, *m = big + om, orig_g = 0; size_t j; int r;
+    unsigned long long mlen0 = vin.mlen > 32 ? 32 : vin.mlen, g = vin.mold; v_ref_first_len = (size_t) mlen0;
+    for (j = 0; j < mlen0; j++) c[j] = vin.m0[j];
+    if (vin.mlen > 32 && g < vin.mlen - 32) { orig_g = c[32 + g]; v_gidx = g; v_gidx_mm = 32 + g; }
+    VCALL(r = FN(open_detached)(m, c, vin.mac, vin.mlen, vin.n, vin.k));
+    if (VMISUSED()) return;
+    VASSERT("opened", r == 0);
+    VASSERT("block 0 = 0^32 || first bytes of the ORIGINAL ciphertext", V_EV(1).op == V_OP_XOR && (V_EV(1).flags & V_F_BLK0));
+    if (vin.mlen > 32)
+        VASSERT("the rest is decrypted from the original ciphertext bytes into m + 32 (same result as with disjoint buffers)",
+                V_EV(3).op == V_OP_XOR && V_EV(3).out == m + 32 && V_EV(3).len == vin.mlen - 32 && V_EV(3).ic == 1 && (!(g < vin.mlen - 32) || (V_EV(3).has_gin && V_EV(3).gin == orig_g)));
+    VREACH("hb_overlap_open");
+}
+
 VNATIVE_MAIN(VENTRY)
